@@ -144,6 +144,17 @@ impl<'tcx> Cx<'tcx> {
             let ids: Vec<J> = args.into_iter().map(|a| self.ty(a)).collect();
             o.push(("args", J::Arr(ids)));
         }
+        // hidden type of a crate-local opaque type (e.g. the coroutine behind an `async fn`)
+        if let ty::Alias(a) = *t.kind() {
+            if let ty::AliasTyKind::Opaque { def_id } = a.kind {
+                if def_id.is_local() {
+                    let hidden = tcx.type_of(def_id).instantiate(tcx, a.args).skip_norm_wip();
+                    if hidden != t {
+                        o.push(("hidden", self.ty(hidden)));
+                    }
+                }
+            }
+        }
         self.types[i] = J::Obj(o);
         i
     }
@@ -218,6 +229,13 @@ impl<'tcx> Cx<'tcx> {
                 o.push(("s", J::s(s)));
                 if let ty::FnDef(d, args) = *t.kind() {
                     o.push(("fn", self.fn_ref(d.into(), args, None)));
+                }
+                // a constant that is a pointer to a static: resolve to the static's def path
+                if let mir::Const::Val(mir::ConstValue::Scalar(rustc_middle::mir::interpret::Scalar::Ptr(ptr, _)), _) = c.const_ {
+                    let aid = ptr.provenance.alloc_id();
+                    if let Some(rustc_middle::mir::interpret::GlobalAlloc::Static(sd)) = self.tcx.try_get_global_alloc(aid) {
+                        o.push(("static", J::s(dp(self.tcx, sd))));
+                    }
                 }
                 // scalar value if it evaluates without generics
                 if let Some(v) = c.const_.try_eval_scalar_int(self.tcx, ty::TypingEnv::fully_monomorphized()) {
